@@ -10,12 +10,16 @@ import (
 )
 
 type vScriptReader struct {
-	data []byte
+	data  []byte
+	chunk int // maximal number of bytes delivered per Read call (0 = as many as requested)
 }
 
 func (r *vScriptReader) Read(p []byte) (int, error) {
 	if len(r.data) == 0 {
 		return 0, errors.New("scripted entropy failure")
+	}
+	if r.chunk > 0 && len(p) > r.chunk {
+		p = p[:r.chunk]
 	}
 	n := copy(p, r.data)
 	r.data = r.data[n:]
@@ -29,6 +33,7 @@ func vRunCase2(t *testing.T, c vCase) (msg string) {
 	case "random":
 		stream := vHex(c.A)
 		var want *big.Int
+		// the stream is the concatenation of everything the source delivers, however it is chunked
 		for i := 0; i+32 <= len(stream); i += 32 {
 			v := new(big.Int).SetBytes(stream[i : i+32])
 			v.Mod(v, vN)
@@ -38,7 +43,7 @@ func vRunCase2(t *testing.T, c vCase) (msg string) {
 			}
 		}
 		old := rand.Reader
-		rand.Reader = &vScriptReader{data: append([]byte(nil), stream...)}
+		rand.Reader = &vScriptReader{data: append([]byte(nil), stream...), chunk: c.N}
 		defer func() { rand.Reader = old }()
 		panicked := false
 		var got *Scalar
